@@ -850,7 +850,13 @@ class ReadParquetPyarrowFS(ReadParquet):
     def _get_lengths(self):
         # TODO: Filters that only filter partition_expr can be used as well
         if not self.filters:
-            return tuple(stats["num_rows"] for stats in self.aggregated_statistics)
+            lengths = [stats["num_rows"] for stats in self.aggregated_statistics]
+            sort_index = self._fragment_sort_index()
+            if sort_index is not None:
+                lengths = [lengths[i] for i in sort_index]
+            if self._filtered:
+                lengths = [lengths[i] for i in self._partitions]
+            return tuple(lengths)
 
     @cached_property
     def _dataset_info(self):
@@ -1316,11 +1322,13 @@ class ReadParquetFSSpec(ReadParquet):
         """Return known partition lengths using parquet statistics"""
         if not self.filters:
             self._update_length_statistics()
-            return tuple(
-                length
-                for i, length in enumerate(self._pq_length_stats)
-                if not self._filtered or i in self._partitions
-            )
+            if not self._filtered:
+                return tuple(self._pq_length_stats)
+            # The statistics hold one entry per distinct selected partition in
+            # dataset order; report them in the order of the selection
+            selected = sorted(set(self._partitions))
+            by_partition = dict(zip(selected, self._pq_length_stats))
+            return tuple(by_partition[i] for i in self._partitions)
         return None
 
     def _update_length_statistics(self):
